@@ -39,7 +39,11 @@ RULE = ("struct shapes of 1-6 fields over bool/int8..int64/int/uint8..uint64/uin
         "'outside' shapes/documents (arbitrary pointer/slice/map nesting, JSON texts inside strings) checked for "
         "panic-freedom only; 6% 'confnest' cases (lists of lists of structs, maps of lists of structs, lists of maps with "
         "re-spelled keys at every struct level, loaded by conf as JSON and YAML); 8 cases + 4 corpus cases of the four "
-        "KNOWN_FINDINGS classes (classified in Coq by masked checkers Exec.spec_mask_*); a fixed directed set "
+        "KNOWN_FINDINGS classes (classified in Coq by masked checkers Exec.spec_mask_*); 60 (thorough: all ~1300) from-string "
+        "numeric cases: every int/uint width x 26 spellings (beyond int64, float syntax, blanks, sign, 0x, leading zeros) x "
+        "{`,string`, WithStringValues() mode, default=, string and number-token elements of slices and maps}; 6% float tokens "
+        "through {JSON, YAML} x {float32, float64} compared by bit pattern with strconv.ParseFloat; 6% direct Marshal; "
+        "round trips include optional members with/without default= explicitly set to zero; a fixed directed set "
         "(D1/D9 reproductions, tag-option clauses) is part of every run; non-trivial = the document sets at least one "
         "field and is not the directed prefix only; distinct = distinct canonical case JSON")
 TRUSTED = ["encoding/json tokenisation with UseNumber, yaml.v2 scalar resolution, reflect (Set*, Overflow*, StructOf)",
@@ -67,6 +71,15 @@ ASSUMPTIONS = [
     "appear only in the dedicated 'known' stream and corpus/C05/known_*.json",
     "observation: a slice given as JSON-array text treats elements differently from a direct array (null element, "
     "pointer elements, struct elements and nested arrays are type mismatches there)",
+    "floats: a float32 field is reached through float64 on both routes (json.Number.Float64 / yaml float64, then "
+    "SetFloat), so a token within half a float64 ulp of a float32 midpoint is rounded twice (finding candidate, "
+    "c05_float32_double_rounding_witness: 1.0000000596046447753906250000001 -> 1.0 instead of 1+2^-23); such tokens are "
+    "not generated; a token between MaxFloat32 and MaxFloat32 + half ulp is rejected (OverflowFloat) although "
+    "ParseFloat(.,32) accepts it -- a rejection is allowed",
+    "round trip, zero values: a form-tagged string member set to \"\" comes back as its default (or fails when required) "
+    "because GetFormValues drops empty values (c05_roundtrip_form_zero: finding candidate); every other member kind/part/"
+    "default combination round-trips and is generated",
+    "Marshal model: fmt.Sprint modelled for ints, bools, strings (options=/`string` on other kinds: outside)",
     "c05_roundtrip (httpc.buildRequest -> httpx.Parse): correspondence only (12% of the cases: request structs with "
     "path/form/header/json parts sent through an httptest server); well-formedness: path/form/header strings non-empty "
     "(an optional form string may be empty), no '/' and no '.'/'..' in path values, header values trimmed, header names "
